@@ -98,13 +98,15 @@ def po2_exponents(spec):
 
 def lattice_values(spec, shape, mode, rs):
   """float32 tensor of values ON the quantizer's documented lattice.
-  mode: random | max | min | signed_max."""
+  mode: random | max | min | signed_max | lsb (smallest non-zero magnitude)."""
   n = int(np.prod(shape))
   t = spec["t"]
   if t in ("qb", "relu") and not is_auto(spec):
     step, kmin, kmax = fixed_lattice(spec)
     if mode == "random":
       k = rs.randint(kmin, kmax + 1, size=n)
+    elif mode == "lsb":
+      k = np.where(rs.randint(0, 2, size=n) == 1, 1, -1 if kmin < 0 else 1)
     elif mode == "max":
       k = np.full(n, kmax)
     elif mode == "min":
@@ -116,7 +118,7 @@ def lattice_values(spec, shape, mode, rs):
     _, _, kmax = fixed_lattice(dict(spec, alpha=None))
     top = 2.0 ** spec["int"]
     mag = 2.0 ** rs.randint(-3, 3, size=shape[-1] if len(shape) > 1 else 1)
-    if mode == "random":
+    if mode in ("random", "lsb"):
       v = rs.uniform(-1.0, 1.0, size=shape)
     elif mode == "max":
       v = rs.uniform(0.5, 1.0, size=shape)
@@ -134,25 +136,28 @@ def lattice_values(spec, shape, mode, rs):
     if mode == "random":
       e = rs.randint(emin, emax + 1, size=n)
       s = np.where(rs.randint(0, 2, size=n) == 1, 1.0, -1.0)
+    elif mode == "lsb":
+      e = np.full(n, emin)
+      s = np.where(rs.randint(0, 2, size=n) == 1, 1.0, -1.0)
     elif mode == "max":
       e, s = np.full(n, emax), np.ones(n)
     elif mode == "min":
       e, s = np.full(n, emax), -np.ones(n)
-    else:
-      e = np.full(n, emax)
+    else:      # signed_max: both ends of the exponent range, random signs
+      e = np.where(rs.randint(0, 3, size=n) == 0, emin, emax)
       s = np.where(rs.randint(0, 2, size=n) == 1, 1.0, -1.0)
-    if mode == "random" and rs.randint(0, 3) == 0:
+    if mode == "random":
       e[rs.randint(0, n)] = emin             # make sure the smallest code occurs
     v = s * np.ldexp(1.0, e.astype(np.int64))
   elif t == "bin":
-    if mode in ("random", "signed_max"):
+    if mode in ("random", "signed_max", "lsb"):
       v = np.where(rs.randint(0, 2, size=n) == 1, 1.0, -1.0)
     else:
       v = np.full(n, 1.0 if mode == "max" else -1.0)
   elif t == "ter":
     if mode == "random":
       v = rs.randint(-1, 2, size=n).astype(np.float64)
-    elif mode == "signed_max":
+    elif mode in ("signed_max", "lsb"):
       v = np.where(rs.randint(0, 2, size=n) == 1, 1.0, -1.0)
     else:
       v = np.full(n, 1.0 if mode == "max" else -1.0)
